@@ -21,6 +21,8 @@ import time
 VERIF = os.path.dirname(os.path.dirname(os.path.abspath(__file__)))
 REPO = os.environ.get("HX_REPO", "/repo")
 WORK = os.environ.get("HX_WORK") or os.path.join(VERIF, ".work")  # HX_WORK / HX_REPO: used by tools/seedsweep.py to analyse scratch copies in parallel
+# optional features that add or change library code (serde only derives impls on atoms)
+ALL_FEATURES = "tendril/encoding_rs html5ever/trace_tokenizer xml5ever/trace_tokenizer"
 CRATES = ["html5ever", "xml5ever", "markup5ever", "tendril", "markup5ever_rcdom", "web_atoms"]
 MEMBER_PKGS = ["html5ever", "xml5ever", "markup5ever", "tendril", "markup5ever_rcdom", "markup5ever-rcdom", "web_atoms"]
 HX_MIR = os.path.join(VERIF, "engines/hx-mir/target/debug/hx-mir")
